@@ -260,7 +260,8 @@ def expected(vad, style="header", alt=False):
                     tp = target["ports"][pos] if x.get("positional") else next(p for p in target["ports"] if p[0] == pname)
                     pname = tp[0]
                 else:
-                    pname = pname if pname is not None else None
+                    if x.get("positional") or pname is None:
+                        pname = "#%d" % pos   # positional map: the k-th (nameless) port
                     inf = inferred.setdefault(x["module"], {})
                     inf[pname] = max(inf.get(pname, 0), len(bits), 1)
                 for k, b in enumerate(bits):
